@@ -21,7 +21,9 @@ Require Import Hdl21.Base.PyInt Hdl21.Spec.PySlice Hdl21.Model.Slice Hdl21.Model
                Hdl21.Spec.Nets Hdl21.Spec.WfDesign Hdl21.Base.Package Hdl21.Base.PrimTable Hdl21.Spec.PkgWf
                Hdl21.Spec.C01ENets Hdl21.Model.C01EElab Hdl21.Model.C01FElab Hdl21.Spec.C01FNets
                Hdl21.Proofs.C01EProofsSim Hdl21.Proofs.C01EProofsWfs Hdl21.Proofs.C01EProofsEnd
-               Hdl21.Proofs.C01FProofsWfs1 Hdl21.Proofs.C01FProofsPortRefsD Hdl21.Proofs.C01FProofsReparentD Hdl21.Proofs.C01FProofsEnd.
+               Hdl21.Proofs.C01FProofsWfs1 Hdl21.Proofs.C01FProofsPortRefsD Hdl21.Proofs.C01FProofsReparentD Hdl21.Proofs.C01FProofsEnd
+               Hdl21.Base.C01BDesign Hdl21.Spec.C01BNets Hdl21.Spec.C01BWf Hdl21.Spec.C01BLower Hdl21.Proofs.C01FProofsBundles.
+Require Hdl21.Corr.C01B Hdl21.Props.C01B.
 Open Scope Z_scope.
 
 (* 1. END TO END, on every valid node (bits of declared signals and of instance ports at every depth).
@@ -165,3 +167,57 @@ Proof. vm_compute. eexists. eexists. split; [reflexivity|]. split; [reflexivity|
 Example C01F_ex_loop : wf_design ex_loop_design = Ok tt /\ frag_ok2 ex_loop_design = false /\
   xinfo_ok ex_loop_xinfo ex_loop_design = true /\ elab_export_model2 ex_loop_xinfo ex_loop_design = Error EFuel.
 Proof. vm_compute. auto. Qed.
+
+(* 7. BUNDLES END TO END: the lowering lemma of the bundle fragment (Props/C01B.v) composed with the pipeline theorem.
+      MODELLING ASSUMPTION (not a theorem; checked on every design of the bundle streams by Corr/C01FB.v, stream
+      `bundles-end-to-end`): InstBundleElabPass + BundleFlattener followed by the rest of the pipeline produce the package that
+      the pipeline model produces on the member-wise lowering `lower fl d` of the written bundle design, up to the names of
+      invented signals and instances (fl = any naming that is injective per module; the implementation's is the C10 naming,
+      whose injectivity per bundle instance is C10_names; the run uses b.m1.m2).
+      Under the DECIDABLE hypotheses of C01B_lower_labels (names_ok, pairs_ok, the orbits of the terminals are computed and lie
+      on nodes of the design), plus: the computed orbits are closed under bstep (orbit_closed - true whenever the fuel was
+      enough), the lowered design is valid, inside frag_ok2 and spelled by xi, and the terminals are terminals of the lowered
+      design: the package of the pipeline model on `lower fl d` has, on the terminals, exactly the nets of the bundle design
+      (bsame_net: the orbits under the path-based one-step map Spec/C01BNets.v:bstep meet - what blabels decides).
+      _partial: as 2. (frag_ok2), and the hypotheses are not derived from wf_bdesign (see notes/C01B.md). *)
+Theorem C01F_bundles_end_to_end_partial fl xi d fuel ts os p tl :
+  names_ok fl d = true -> pairs_ok d = true ->
+  traverse (borbit d fuel) ts = Ok os -> forallb (forallb (bnode_ok d)) os = true -> forallb (orbit_closed d) os = true ->
+  wf_design (lower fl d) = Ok tt -> frag_ok2 (lower fl d) = true -> xinfo_ok xi (lower fl d) = true ->
+  terminals (lower fl d) = Ok tl -> forallb (fun t => existsb (node_eqb (C01BLower.phi fl t)) (map fst tl)) ts = true ->
+  elab_export_model2 xi (lower fl d) = Ok p ->
+  exists tn, top_name (lower fl d) = Ok tn /\
+    forall t1 t2, In t1 ts -> In t2 ts ->
+      (same_net_pkg p tn (term_map2 xi (lower fl d) (C01BLower.phi fl t1)) (term_map2 xi (lower fl d) (C01BLower.phi fl t2))
+       <-> bsame_net d t1 t2).
+Proof. exact (bundles_end_to_end fl xi d fuel ts os p tl). Qed.
+Print Assumptions C01F_bundles_end_to_end_partial.
+
+(* the lowering keeps "the orbits meet" on nodes whose iterates all exist and are nodes of the design *)
+Theorem C01F_lower_same_net fl d x y : names_ok fl d = true -> pairs_ok d = true -> live d x -> live d y ->
+  (bsame_net d x y <-> same_net (lower fl d) (C01BLower.phi fl x) (C01BLower.phi fl y)).
+Proof. exact (lower_meet fl d x y). Qed.
+Print Assumptions C01F_lower_same_net.
+
+(* non-vacuity: the coinciding-names design of Props/C01B.v (scalar lo_q next to the nested member lo.q, held by Top and
+   passed to Inner) satisfies every hypothesis, and the model exports its lowering *)
+Definition exb_xinfo : xinfo :=
+  {| x_devs := map (fun t : string => (sapp "/Pin{tag=int:" (sapp t ";}"),
+                      {| dv_dom := ""; dv_name := "Pin"; dv_params := [("tag", sapp "int:" t)];
+                         dv_ext := Some {| px_domain := ""; px_name := "Pin"; px_ports := [("a", 1, 3)]; px_spicetype := "SUBCKT" |} |}))
+                   ["1"; "2"; "3"];
+     x_ncnames := []; x_dirs := [] |}.
+
+Example C01F_ex_bundles :
+  let d := C01B.ex0 in let ts := C01B.ex0_terms in let ld := lower C01B.dot_name d in
+  names_ok C01B.dot_name d = true /\ pairs_ok d = true /\
+  (exists os, traverse (borbit d (bdesign_fuel d)) ts = Ok os /\ forallb (forallb (bnode_ok d)) os = true /\ forallb (orbit_closed d) os = true) /\
+  wf_design ld = Ok tt /\ frag_ok2 ld = true /\ xinfo_ok exb_xinfo ld = true /\
+  (exists tl, terminals ld = Ok tl /\ forallb (fun t => existsb (node_eqb (C01BLower.phi C01B.dot_name t)) (map fst tl)) ts = true) /\
+  (exists p, elab_export_model2 exb_xinfo ld = Ok p /\ map pm_name (pk_mods p) = ["Inner"; "Top"]).
+Proof.
+  cbv zeta. repeat split; try (vm_compute; reflexivity).
+  - eexists. split; [vm_compute; reflexivity|]. split; vm_compute; reflexivity.
+  - eexists. split; vm_compute; reflexivity.
+  - eexists. split; vm_compute; reflexivity.
+Qed.
